@@ -42,13 +42,14 @@ class PyKdebugParser:
         self.dyld_addresses = []
         self.dyld_uuids = []
 
-    def kevents(self, kdebug: io.IOBase):
+    def kevents(self, kdebug: io.IOBase, filter_class=None):
+        filter_class = self.filter_class if filter_class is None else filter_class
         events_generator = KdBufParser(self.threads_pids, self.pids_names).parse(kdebug)
         events_generator = filter(lambda e: not isinstance(e, OsLogEvent), events_generator)
         if self.filter_tid is not None:
             events_generator = filter(lambda e: e.tid == self.filter_tid, events_generator)
-        if self.filter_class or self.filter_subclass:
-            events_generator = filter(lambda e: self._is_eventid_allowed(e.eventid), events_generator)
+        if filter_class or self.filter_subclass:
+            events_generator = filter(lambda e: self._is_eventid_allowed(e.eventid, filter_class), events_generator)
         return events_generator
 
     def formatted_kevents(self, kdebug: io.IOBase, trace_codes=None):
@@ -58,17 +59,19 @@ class PyKdebugParser:
     def traces(self, kdebug: io.IOBase, trace_codes=None):
         trace_codes_map = default_trace_codes() if trace_codes is None else trace_codes
 
-        has_filters = self.filter_class or self.filter_subclass
-        add_trace_class = has_filters and DBG_TRACE not in self.filter_class
+        # Helper classes are added to a copy, the caller's filter settings stay as the caller set them.
+        filter_class = list(self.filter_class)
+        has_filters = filter_class or self.filter_subclass
+        add_trace_class = has_filters and DBG_TRACE not in filter_class
         if add_trace_class:
-            self.filter_class.append(DBG_TRACE)
-        has_bsd = DBG_BSD in self.filter_class or any(filter(lambda sc: sc >> 8 == DBG_BSD, self.filter_subclass))
-        add_fs_class = has_filters and has_bsd and DBG_FSYSTEM not in self.filter_class
+            filter_class.append(DBG_TRACE)
+        has_bsd = DBG_BSD in filter_class or any(filter(lambda sc: sc >> 8 == DBG_BSD, self.filter_subclass))
+        add_fs_class = has_filters and has_bsd and DBG_FSYSTEM not in filter_class
         if add_fs_class:
-            self.filter_class.append(DBG_FSYSTEM)
+            filter_class.append(DBG_FSYSTEM)
 
         traces_parser = TracesParser(trace_codes_map, self.threads_pids, self.pids_names)
-        trace_generator = traces_parser.feed_generator(self.kevents(kdebug))
+        trace_generator = traces_parser.feed_generator(self.kevents(kdebug, filter_class))
 
         if self.filter_process is not None:
             trace_generator = filter(self._filter_process_callback, trace_generator)
@@ -183,5 +186,6 @@ class PyKdebugParser:
         event_rep += colored(os_log.composed_message, 'white') if self.color else os_log.composed_message
         return event_rep
 
-    def _is_eventid_allowed(self, event_id):
-        return (event_id >> 24 in self.filter_class) or (event_id >> 16 in self.filter_subclass)
+    def _is_eventid_allowed(self, event_id, filter_class=None):
+        filter_class = self.filter_class if filter_class is None else filter_class
+        return (event_id >> 24 in filter_class) or (event_id >> 16 in self.filter_subclass)
